@@ -226,6 +226,109 @@ def _moved_items(d):
     return out
 
 
+def _shape_of(it, kind):
+    import re
+
+    def norm(t):
+        return re.sub(r"'\w+ ?", "", t or "").replace(" ", "")
+    if kind == "struct":
+        return {"kind": "struct", "fields": [[f["name"], norm(f["ty"])] for f in it["variants"][0]["fields"]]}
+    return {"kind": "enum", "variants": [[v["name"], [norm(f["ty"]) for f in v["fields"]]] for v in it["variants"]]}
+
+
+def _renamed_types(d):
+    """{current path: canonical path} for structs / enums of the library that were renamed: the type of the pinned tree is gone and
+    exactly one new type has its shape (field types in order for a struct, payload types per variant for an enum)."""
+    try:
+        shapes = json.load(open(CANONICAL)).get("shapes", {})
+    except (OSError, ValueError):
+        return {}
+    cur = {}
+    for kind, key in (("struct", "structs"), ("enum", "enums")):
+        for it in d["items"].get(key, []):
+            p_ = it["path"]
+            if "yaserde_tests" in p_ or "::tests::" in p_ or "helpers_content" in p_ or "test_utils" in p_ or "{" in p_:
+                continue
+            cur[p_] = _shape_of(it, kind)
+    out = {}
+    for want, sh in shapes.items():
+        if want in cur:
+            continue
+        if sh["kind"] == "struct":
+            tys = [t for _n, t in sh["fields"]]
+            cands = [p_ for p_, c in cur.items() if p_ not in shapes and c["kind"] == "struct" and sorted(t for _n, t in c["fields"]) == sorted(tys)]
+        else:
+            tys = sorted(tuple(t) for _n, t in sh["variants"])
+            cands = [p_ for p_, c in cur.items() if p_ not in shapes and c["kind"] == "enum" and sorted(tuple(t) for _n, t in c["variants"]) == tys]
+        same_mod = [p_ for p_ in cands if p_.rsplit("::", 1)[0] == want.rsplit("::", 1)[0]]
+        cands = same_mod or cands
+        if len(cands) == 1:
+            out[cands[0]] = want
+    return out
+
+
+def _renamed_members(d):
+    """({field: canonical field}, {(enum path, variant): canonical variant}) for renamed struct fields / enum variants of types that
+    still carry their pinned name: matched by type (and position among equals); a new name that also names a member of another type
+    is not touched."""
+    try:
+        shapes = json.load(open(CANONICAL)).get("shapes", {})
+    except (OSError, ValueError):
+        return {}, {}
+    all_fields, all_variants = {}, {}
+    cur = {}
+    for kind, key in (("struct", "structs"), ("enum", "enums")):
+        for it in d["items"].get(key, []):
+            sh = _shape_of(it, kind)
+            cur[it["path"]] = sh
+            for n_, _t in (sh.get("fields") or []):
+                all_fields.setdefault(n_, set()).add(it["path"])
+            for n_, _t in (sh.get("variants") or []):
+                all_variants.setdefault(n_, set()).add(it["path"])
+
+    def align(want_members, have_members):
+        """[(have name, want name)] for members that were renamed"""
+        wn = [n for n, _t in want_members]
+        hn = [n for n, _t in have_members]
+        missing = [(i, n, t) for i, (n, t) in enumerate(want_members) if n not in hn]
+        extra = [(i, n, t) for i, (n, t) in enumerate(have_members) if n not in wn]
+        pairs = []
+        for (i, n, t) in missing:
+            c = [(j, m) for (j, m, u) in extra if u == t and m not in [x for x, _y in pairs]]
+            if len(c) > 1:
+                c = [(j, m) for (j, m) in c if j == i] or c
+            if len(c) == 1:
+                pairs.append((c[0][1], n))
+        return pairs
+    fields, variants = {}, {}
+    for p_, sh in shapes.items():
+        if p_ not in cur or cur[p_]["kind"] != sh["kind"]:
+            continue
+        if sh["kind"] == "struct":
+            for have, want in align(sh["fields"], cur[p_]["fields"]):
+                if all_fields.get(have) == {p_} and want not in [n for n, _t in cur[p_]["fields"]]:
+                    fields[have] = want
+        else:
+            for have, want in align([(n, tuple(t)) for n, t in sh["variants"]], [(n, tuple(t)) for n, t in cur[p_]["variants"]]):
+                if all_variants.get(have) == {p_}:
+                    variants[(p_, have)] = want
+    return fields, variants
+
+
+def _rewrite_members(text, fields, variants):
+    import re
+    for have, want in fields.items():
+        h, w = re.escape(json.dumps(have)), json.dumps(want)
+        text = re.sub(r'("(?:f|name)":\s*)' + h, lambda m_: m_.group(1) + w, text)
+        # names listed in aggregates / upvars / struct patterns: ["a", "b"]
+        text = re.sub(r'("(?:fields|upvars)":\s*\[[^\]]*?)' + h, lambda m_: m_.group(1) + w, text)
+    for (enum, have), want in variants.items():
+        text = re.sub(r"(?<![A-Za-z0-9_])" + re.escape(enum + "::" + have) + r"(?![A-Za-z0-9_])", enum + "::" + want, text)
+        h, w = re.escape(json.dumps(have)), json.dumps(want)
+        text = re.sub(r'("(?:variant|downcast|v|name)":\s*)' + h, lambda m_: m_.group(1) + w, text)
+    return text
+
+
 def _renamed_fns(d):
     """{current path: canonical path} for public functions of the library that were renamed: the function named on the pinned tree is
     gone, and exactly one function of the analysed tree has its signature (and, where several functions share a signature, its
@@ -301,7 +404,7 @@ def _rewrite_paths(text, mapping, prefix=""):
 
 
 class Crate:
-    def __init__(self, path, moved=None):
+    def __init__(self, path, moved=None, members=None):
         with open(path) as f:
             raw = f.read()
         d = json.loads(raw)
@@ -309,6 +412,26 @@ class Crate:
         if self.moved:
             raw = _rewrite_paths(raw, self.moved, prefix="" if d.get("crate") == "zeep_lib" else "zeep_lib::")
             d = json.loads(raw)
+        self.members = ({}, {})
+        if moved is None and d.get("crate") == "zeep_lib":
+            for _ in range(3):     # renamed types (a type may be recognised only once the types of its fields are)
+                rt = _renamed_types(d)
+                if not rt:
+                    break
+                raw = _rewrite_paths(raw, rt)
+                d = json.loads(raw)
+                self.moved = dict(self.moved, **rt)
+            fm, vm = _renamed_members(d)
+            if fm or vm:
+                raw = _rewrite_members(raw, fm, vm)
+                d = json.loads(raw)
+                self.members = (fm, vm)
+        elif members is not None:
+            self.members = members
+            if members[0] or members[1]:
+                vm2 = {("zeep_lib::" + e_, h_): w_ for (e_, h_), w_ in members[1].items()}
+                raw = _rewrite_members(raw, members[0], vm2)
+                d = json.loads(raw)
         if moved is None and d.get("crate") == "zeep_lib":
             for _ in range(3):     # (a function recognised by what it calls may need its callee recognised first)
                 ren = _renamed_fns(d)
@@ -362,7 +485,7 @@ class Facts:
             self.dir = generate(self.root, force=bool(attempt))
             try:
                 self.lib = Crate(os.path.join(self.dir, "zeep_lib.json"))
-                self.bin = Crate(os.path.join(self.dir, "zeep.json"), moved=self.lib.moved)
+                self.bin = Crate(os.path.join(self.dir, "zeep.json"), moved=self.lib.moved, members=self.lib.members)
                 break
             except (OSError, ValueError) as e:
                 # the cached fact set vanished or is damaged (cache cleaned by a concurrent run): regenerate once
